@@ -310,7 +310,7 @@ func verifH_C14_convert_errors() {
 	if verifChoose("body", 2) == 1 {
 		re.RequestBody = &openapi3.RequestBody{}
 	}
-	re.Reason = []string{"", "doesn't match schema", prefixInvalidCT + ` ""`, prefixInvalidCT + ` "text/x"`}[verifChoose("reason", 4)]
+	re.Reason = []string{"", "doesn't match schema", `header Content-Type has unexpected value ""`, `header Content-Type has unexpected value "text/x"`}[verifChoose("reason", 4)]
 	kinds := []ParseErrorKind{KindOther, KindUnsupportedFormat, KindInvalidFormat}
 	switch verifChoose("err", 8) {
 	case 1:
@@ -325,7 +325,7 @@ func verifH_C14_convert_errors() {
 			re.Err.(*ParseError).Cause.(*ParseError).Cause = errors.New("root cause")
 		}
 	case 5:
-		re.Err = &ParseError{Kind: kinds[verifChoose("kind", 3)], Reason: prefixUnsupportedCT + " x", Cause: errors.New("other")}
+		re.Err = &ParseError{Kind: kinds[verifChoose("kind", 3)], Reason: "unsupported content type x", Cause: errors.New("other")}
 	case 6:
 		re.Err = &openapi3.SchemaError{Value: "v", Schema: str.Value, SchemaField: "type", Reason: "r"}
 	case 7:
